@@ -434,7 +434,7 @@ func C05(tier string) int {
 		b, _ := json.Marshal(j)
 		jobs = append(jobs, b)
 	}
-	pool := par.NewPool(Workers(), "worker", "c05")
+	pool := par.NewPool(WorkersCPU(), "worker", "c05")
 	defer pool.Close()
 	var seqs, calls, cases int
 	var viols, errs []string
